@@ -12,8 +12,8 @@ NA={}
 def na(pid,reason): NA[pid]=reason
 
 chk('C01','exploration',
- 'Differential runtime monitor: every generated call is executed on MemFS/OrefaFS and, through osfs.OsFS, on the Linux kernel (tmpfs, inside a chroot so that absolute paths are literally the same); outcome class, returned values, the whole tree (Lstat/ReadDir/ReadFile/Readlink walk), WalkDir order and cwd are compared after every call. Bounded-exhaustive over distinct states of a small universe plus long random histories. Held on the executions observed, nothing more.',
- 'tmpfs stands for a real Linux directory; the process is root; error wrapper fields, directory sizes/link counts, inode numbers and modification times (other than the sentinel a Chtimes just set) are outside the comparison; setuid/setgid bits are not generated.',
+ 'Differential runtime monitor: every generated call is executed on MemFS/OrefaFS and, through osfs.OsFS, on the Linux kernel (tmpfs, inside a chroot so that absolute paths are literally the same); outcome class, returned values, the whole tree (Lstat/ReadDir/ReadFile/Readlink walk), WalkDir order and cwd are compared after every call. Bounded-exhaustive over distinct states of a small universe plus long random histories (modes incl. the setuid/setgid/sticky bits; every slice a read returned or a write was given is overwritten afterwards). Held on the executions observed, nothing more.',
+ 'tmpfs stands for a real Linux directory; the process is root; error wrapper fields, directory sizes/link counts, inode numbers and modification times (other than the sentinel a Chtimes just set) are outside the comparison.',
  'differential lockstep against the kernel (chroot on tmpfs) with state-aware generators','DESIGN.md §5 C01')
 for p in ['C02','C03','C04','C05','C06','C07','C08','C09','C10','C11','C12','C13','C14','C15','C16','C17']:
     na(p,'check not registered yet (machinery under construction in this round; see DESIGN.md §5 for the design)')
